@@ -51,7 +51,7 @@ def _vals(rng, dt, n, lo=-4, hi=9):
 TEMPLATES = ["scaler", "normalizer", "binarizer", "imputer", "linear_regressor", "array_feature_extractor",
              "tree_regressor", "linear_classifier", "label_encoder",
              "feature_vectorizer", "reduce_int", "mean_family", "arith_small", "unary_float", "matmul_int",
-             "cumsum_pow", "quantize", "pool_f64", "cast_chain"]
+             "cumsum_pow", "quantize", "pool_f64", "cast_chain", "random", "random"]
 
 
 def gen_dtype_program(rng, template: str) -> list:
@@ -240,6 +240,43 @@ def gen_dtype_program(rng, template: str) -> list:
 
         OP("Cast", "v17", "cast", [x], src + ">" + dst, to={"f64": "float64", "f32": "float32", "f16": "float16", "i32": "int32", "i64": "int64",
                                                             "u8": "uint8", "bool": "bool"}[dst], np_kwargs=["to"])
+    elif t == "random":
+        # NON-DETERMINISTIC operators in constant expressions: input-less (RandomUniform / RandomNormal: "all inputs
+        # have values" holds vacuously), *Like / Multinomial / Bernoulli on constants, Dropout in training mode.
+        # The built model draws a fresh sample on every run: no value may be propagated, and no type derived from one.
+        which = rng.choice(["random_uniform", "random_normal", "random_uniform_like", "random_normal_like", "multinomial", "bernoulli", "dropout_train"])
+        seed = rng.choice([None, None, 1.0, 7.0])
+        shp = rng.choice([[3], [2, 2], [4]])
+        if which in ("random_uniform", "random_normal"):
+            extra = {"low": 0.9, "high": 0.99} if which == "random_uniform" else {"mean": 5.0, "scale": 2.0}
+            if rng.random() < 0.4:
+                extra = {}
+            OP(which, rng.choice(["v17", "v19", "v21"]), which, [], "none", shape=shp, seed=seed, dtype=rng.choice(["float32", "float64"]), np_kwargs=["dtype"], **extra)
+        elif which in ("random_uniform_like", "random_normal_like"):
+            OP(which, "v17", which, [C(rng.choice(["f32", "f64"]), shp)], "const", seed=seed)
+        elif which == "multinomial":
+            OP(which, "v17", which, [C("f32", [2, 3], [0.1, 0.5, 0.4, 0.3, 0.3, 0.4])], "const", sample_size=rng.choice([1, 3]), seed=seed)
+        elif which == "bernoulli":
+            OP(which, "v17", which, [C(rng.choice(["f32", "f64"]), shp, [rng.choice([0.2, 0.5, 0.8]) for _ in range(int(np.prod(shp)))])], "const", seed=seed)
+        else:
+            x = C("f32", shp, [rng.choice([1.0, 2.0, 4.0]) for _ in range(int(np.prod(shp)))])
+            OP("dropout_train", "v17", "dropout", [x, C("f32", [], [0.5]), C("bool", [], [True])], "const", nout=2, seed=rng.choice([None, 3]))
+        first = len(steps) - 1
+        nvar = first + steps[-1]["nout"]
+        # the sample flows on: scaled, cast to int64, used as a Reshape / Expand target
+        ten = C("f32" if steps[first].get("kwargs", {}).get("dtype", "float32") == "float32" and which not in ("multinomial",) else "f32", [], [10.0])
+        if which in ("random_uniform", "random_uniform_like") and len(shp) == 1 and steps[first]["kwargs"].get("dtype", "float32") == "float32" \
+                and (which == "random_uniform" or steps[first - 1]["dt"] == "f32"):
+            nvar += 1  # var index of `ten`
+            steps.append({"op": "mul", "args": [first, nvar - 1]})
+            steps.append({"op": "cast", "args": [nvar], "to": "i64"})
+            steps.append({"op": "const", "how": "value", "dt": "i64", "shape": shp, "data": [1] * shp[0]})
+            steps.append({"op": "add", "args": [nvar + 1, nvar + 2]})
+            steps.append({"op": "const", "how": "value", "dt": "f32", "shape": [1], "data": [1.5]})
+            steps.append({"op": "expand", "args": [nvar + 4, nvar + 3]})
+        else:
+            steps.append({"op": "identity", "args": [first]})
+        return steps
     else:
         raise ValueError(t)
     nout = steps[-1]["nout"]
